@@ -404,6 +404,11 @@ def _child_entry(argv):
         raise SystemExit("rpyc imported from %s, expected %s" % (rpyc.__file__, repo))
     if os.environ.get("RV_YIELD_INJECT", "1") != "0":
         _install_yield_injection()
+    if os.environ.get("RV_NOFILE"):
+        # a small descriptor table: a listening process that keeps something of every client it ever had runs out within one run
+        import resource
+        n = int(os.environ["RV_NOFILE"])
+        resource.setrlimit(resource.RLIMIT_NOFILE, (n, n))
     _Child(args).main()
 
 
@@ -432,9 +437,23 @@ def _install_yield_injection():
 
     slow_codes = set()
     medium_codes = set()
+    # RV_ACCEPT_PAUSE: a thread that has just taken a client off the listener (the `break` that leaves the accept loop) is held
+    # up for some tens of milliseconds - long enough for a close() issued at that moment to run its course meanwhile
+    pause_lines = set()
+    if os.environ.get("RV_ACCEPT_PAUSE") == "1":
+        import inspect
+        try:
+            lines, first = inspect.getsourcelines(srv.Server.accept)
+            pause_lines.update(first + i for i, text in enumerate(lines) if text.strip() == "break")
+        except (OSError, TypeError):
+            pass
+    accept_code = srv.Server.accept.__code__
 
     def on_line(code, line):
         counter[0] += 1
+        if pause_lines and code is accept_code and line in pause_lines:
+            time.sleep(0.08)
+            return
         r = rng.random()
         if code in slow_codes:           # shutting a server down is not time critical: give the other threads real time
             if r < 0.6:
@@ -478,7 +497,7 @@ class ChildDied(ChildError):
 
 
 class ServerProc(object):
-    def __init__(self, kind, auth=False, unix=False, start_watchdog=60, cmd_watchdog=60):
+    def __init__(self, kind, auth=False, unix=False, start_watchdog=60, cmd_watchdog=60, nofile=None, accept_pause=False):
         """auth: False | True | "rewrap" (the authenticator returns a new socket object for the same descriptor)"""
         if kind not in KINDS:
             raise ValueError(kind)
@@ -496,6 +515,11 @@ class ServerProc(object):
         env["PYTHONDONTWRITEBYTECODE"] = "1"
         env["RV_AUTH_REWRAP"] = "1" if auth == "rewrap" else "0"
         env["RV_AUTH_PATIENT"] = "1" if auth == "patient" else "0"
+        env["RV_ACCEPT_PAUSE"] = "1" if accept_pause else "0"
+        if nofile:
+            env["RV_NOFILE"] = str(nofile)
+        else:
+            env.pop("RV_NOFILE", None)
         cmd = [sys.executable, "-u", os.path.abspath(__file__).replace(".pyc", ".py"), "serve", kind, "--scratch", self.scratch]
         if auth:
             cmd.append("--auth")
